@@ -155,7 +155,9 @@ pub fn run_case(ctx: &mut Ctx, fam: &str, k: u64, r: &mut Rng) {
             n += 1;
         }
         let subset = idx as usize;
-        let lr = *r.pick(&[0.0, 0.125, 0.25, 0.5, 1.0, 0.1, 0.37, -0.5, -0.1]);
+        // (the last entry goes with gradients of magnitude 2^70: a huge gradient times a tiny rate is an ordinary step)
+        let tiny_rate = (2.0f64).powi(-62);
+        let lr = *r.pick(&[0.0, 0.125, 0.25, 0.5, 1.0, 0.1, 0.37, -0.5, -0.1, tiny_rate]);
         // one optimizer object serves every update of the case - and, half of the time, first another parameter list
         // with the same number of entries and other sizes (a hidden-size sweep with one optimizer)
         let gd = GradientDescent::new(lr as Float);
@@ -188,7 +190,13 @@ pub fn run_case(ctx: &mut Ctx, fam: &str, k: u64, r: &mut Rng) {
             let a = arr(&shapes[i], &v);
             let a = if r.chance(4, 5) { a.tracked() } else { a };
             if subset >> i & 1 == 1 {
-                let g: Vec<f64> = if dyadic { (0..m).map(|_| 0.25 * r.int(-16, 16)).collect() } else { (0..m).map(|_| r.int(-1000, 1000) / 777.0).collect() };
+                let g: Vec<f64> = if lr == tiny_rate {
+                    (0..m).map(|_| r.int(-4, 4) * (2.0f64).powi(70)).collect()
+                } else if dyadic {
+                    (0..m).map(|_| 0.25 * r.int(-16, 16)).collect()
+                } else {
+                    (0..m).map(|_| r.int(-1000, 1000) / 777.0).collect()
+                };
                 // usually the gradient has the parameter's dimensions; a user may also install a buffer of the same
                 // element count under other dimensions (a flat averaged / clipped gradient): the parameter keeps ITS dims
                 let gdims: Vec<usize> = if r.chance(1, 6) { if shapes[i].len() == 1 { vec![1, m] } else { vec![m] } } else { shapes[i].clone() };
